@@ -38,10 +38,61 @@ def cases(seed, tier):
     n_random = 1500 if tier == "quick" else 30000
     for i in range(n_random):
         reserved = "__datadog_p_%d" % rng.randint(0, 3) if rng.random() < 0.06 else None
-        g = gen.Gen(rng, max_depth=rng.choice([3, 4, 5, 6]), multiline=rng.random() < 0.3, reserved=reserved)
+        g = gen.Gen(rng, max_depth=rng.choice([3, 4, 5, 6]), multiline=rng.random() < 0.3, reserved=reserved,
+                    long_literals=rng.random() < 0.3)
         code = g.program()
         cfg = gen.rand_config(rng, force_full=rng.random() < 0.4)
         out.append({"name": "rnd/%d" % i, "code": code, "config": cfg})
+    # totality (C13): token-level mutations of valid programs, token soup, odd file names
+    toks = ["(", ")", "{", "}", "[", "]", ";", ",", ".", "?.", "...", "=>", "=", "+=", "+", "`", "${", "'", '"', "/",
+            "/*", "*/", "//", "\n", "\\", "function", "class", "return", "yield", "await", "async", "new", "delete",
+            "typeof", "import", "export", "let", "const", "a", "b", "f", "trim", "concat", "0", "1n", "0x", "\u2028",
+            "\ud800", "#p", "@", "<!--", "-->", "?", ":", "??=", "**", "static", "get", "super", "this", "null"]
+    files = ["/w/src/test.js", "test.js", "", "/", ".", "a/b/../c.js", "/w/\u00e9.js", "C:\\a\\b.js", "x" * 3000 + ".js",
+             "/w/dir/", "file with space.mjs", "/w/a.cjs"]
+    n_mut = 400 if tier == "quick" else 20000
+    for i in range(n_mut):
+        g = gen.Gen(rng, max_depth=rng.choice([2, 3, 4]))
+        code = g.program()
+        kind = rng.random()
+        if kind < 0.7:
+            # token-level mutation
+            parts = code.split(" ")
+            for _ in range(rng.choice([1, 1, 2, 3])):
+                j = rng.randrange(len(parts))
+                op = rng.random()
+                if op < 0.3:
+                    del parts[j]
+                elif op < 0.5:
+                    parts.insert(j, parts[j])
+                elif op < 0.8:
+                    parts.insert(j, rng.choice(toks))
+                else:
+                    k2 = rng.randrange(len(parts))
+                    parts[j], parts[k2] = parts[k2], parts[j]
+                if not parts:
+                    parts = [";"]
+            code = " ".join(parts)
+            if rng.random() < 0.15:
+                code = code[:rng.randrange(len(code) + 1)]
+        elif kind < 0.9:
+            code = " ".join(rng.choice(toks) for _ in range(rng.randint(1, 40)))
+        else:
+            code = "".join(chr(rng.choice([rng.randint(32, 126), rng.randint(0, 31), rng.randint(160, 0x2FFF)]))
+                           for _ in range(rng.randint(0, 200)))
+        out.append({"name": "fuzz/%d" % i, "code": code, "file": rng.choice(files), "mode": "total",
+                    "config": gen.rand_config(rng, force_full=rng.random() < 0.5)})
+    # string literals of every length class in every kind of placement (C14)
+    for k, (pn, tmpl) in enumerate(LITERAL_PLACEMENTS):
+        for n in (10, 11, 256, 257):
+            for uni in (False, True):
+                body = ("L%d_" % k + "x" * n)[:n]
+                if uni:
+                    body = body[:-2] + "\u00e9"      # n-1 characters, n bytes
+                for litcfg in ({}, {"literals": False}):
+                    cfg = dict(FULL_CFG, **litcfg)
+                    out.append({"name": "lit/%s/%d%s" % (pn, n, "u" if uni else ""),
+                                "code": tmpl.replace("LIT", body), "config": cfg})
     # reserved-prefix identifiers planted in every kind of position (C06: refuse or stay clear)
     for k, (pn, tmpl) in enumerate(RESERVED_PLACEMENTS):
         for idx in (0, 1, 7):
@@ -49,6 +100,26 @@ def cases(seed, tier):
             out.append({"name": "rsv/%s/%d" % (pn, idx), "code": tmpl.replace("RSV", nm), "config": FULL_CFG})
     return out
 
+
+LITERAL_PLACEMENTS = [
+    ("operand", "function m(a) { return a + 'LIT'; }"),
+    ("both_operands", "function m(a) { return 'LIT' + a + 'LIT'; }"),
+    ("argument", "function m(a) { return a.concat('LIT', \"LIT\"); }"),
+    ("initialiser", "function m(a) { const v = 'LIT', w = ('LIT'); let {q} = 'LIT'; return a + v; }"),
+    ("object_value", "function m(a) { return { k: 'LIT', 'LIT': 'LIT', [a]: 'LIT', m() { return 'LIT'; } }; }"),
+    ("top_level", "const t = 'LIT';\nfoo('LIT');"),
+    ("nested_fn", "function m(a) { return function () { return () => a + 'LIT'; }; }"),
+    ("require", "const r = require('LIT'); const r2 = require(a, 'LIT'); const r3 = o.require('LIT');"),
+    ("regexp", "function m(a) { return [new RegExp('LIT'), new RegExp(a, 'LIT'), new RegExp, RegExp('LIT'), new RegExp(...a, 'LIT')]; }"),
+    ("multiline", "function m(a) {\n  const v = a +\n      'LIT';\n\n  return `t${a}` + \"LIT\";\n}"),
+    ("unmodified", "function m(a) { foo('LIT'); return a; }"),
+    ("template_and_tag", "function m(a) { return `LIT${a}` + tag`LIT` + 'LIT'; }"),
+    ("import_source", "import z from 'LIT'; export const v = 'LIT';"),
+    ("class_members", "class C { static s = 'LIT'; 'LIT'() { return 'LIT'; } f = a + 'LIT'; }"),
+    ("directive_like", "function m(a) { 'LIT'; return a + 1; }"),
+    ("after_unicode", "function m(a) { const s = '\u00e9\u00e9', v = a + 'LIT'; return v; }"),
+    ("crlf", "function m(a) {\r\n  return a +\r\n    'LIT';\r\n}"),
+]
 
 RESERVED_PLACEMENTS = [
     ("ref_in_block", "function m(a, b) { const c = a + b(); return RSV; }"),
